@@ -623,6 +623,173 @@ def shipped_jobs(items):
 
 
 # ------------------------------------------------------------------------------------------------
+# the cell taggers on REAL RUNS (traced jellyfysh.run.main): recorded fresh generation of every cell-based tagger at
+# every leg against the model's tagger functions on the replayed occupancy (check_tcase_run), and the partition
+# stated directly on the recorded generations
+RUN_HEADER = ("Require Import JF.Base.F64 JF.Model.Occupancy JF.Model.OccupancyRun.\n"
+              "From Coq Require Import ZArith.\nOpen Scope Z_scope.")
+TKIND = {"CellVetoTagger": "TVeto", "CellBoundingPotentialTagger": "TBounding", "ExcludedCellsTagger": "TNearby",
+         "SurplusCellsTagger": "TSurplus", "CellBoundaryTagger": "TBoundary"}
+
+
+def cell_taggers(meta, si):
+    import tracecheck as TC
+    out = []
+    for ti, t in enumerate(meta["taggers"]):
+        base = TC.tagger_base(meta, ti)
+        if t.get("internal_state") == si and base in TKIND:
+            out.append((ti, TKIND[base]))
+    return out
+
+
+def leg_entry(d, ti):
+    return d[str(ti)] if str(ti) in d else d[ti]
+
+
+def run_payloads(ctx):
+    import hist
+    import c11
+    cfgs = [c for c in hist.shipped_configs(ctx) if c11.has_cells(ctx, c)]
+    jobs = [(c, {}) for c in cfgs] + [j for j in hist.crowded_jobs(cfgs) if c11.has_cells(ctx, j[0])]
+    if not ctx.quick():
+        jobs += hist.variations(ctx, cfgs, 30)
+    return [{"config": c, "seed": ctx.seed, "max_legs": ctx.n(120, 400), "overrides": ov, "record_fresh": True,
+             "record_instates": False} for (c, ov) in jobs]
+
+
+def encode_tcase(tr, max_legs, si):
+    import c11
+    r = c11.encode_ocase_n(tr, max_legs, si)
+    if r is None:
+        return None
+    oterm, used = r
+    meta = tr["meta"]
+    tags = cell_taggers(meta, si)
+    if not tags or any("fresh" not in tr["legs"][n] for n in [0] + used):
+        return None
+    gens = []
+    for n in [0] + used:
+        leg = tr["legs"][n]
+        g = []
+        for ti, kind in tags:
+            f = leg_entry(leg["fresh"], ti)
+            act = bool(leg_entry(leg["activated"], ti))
+            if isinstance(f, str):          # the real tagger raised: no generation can match
+                f, act = [[[-1]]], True
+            g.append("(mkTGen %s %s %s)" % (kind, C.coq_bool(act), lllz(f)))
+        gens.append("[" + "; ".join(g) + "]")
+    layers = meta["internal_states"][si]["neighbor_layers"]
+    return "mkTCase (%s) %s %s" % (oterm, C.coq_z(layers), "[" + ";\n ".join(gens) + "]")
+
+
+def run_oracle(tr):
+    """C10 on a recorded real run, from the recorded generations and internals only: at every leg with a relevant
+    active unit the targets of the far family (cell-bounding tagger; for cell-veto: the occupants of the cells that
+    are not nearby the active cell), of the nearby tagger and of the surplus tagger partition the other relevant
+    units; nearby targets sit in nearby cells, far targets do not.  Returns [(leg, message)]."""
+    meta = tr["meta"]
+    if tr.get("error"):
+        return [(len(tr["legs"]), "run raised %s: %s" % (tr["error"]["exc"], tr["error"]["msg"][:200]))]
+    out = []
+    nchecked = 0
+    for si, ist in enumerate(meta["internal_states"]):
+        if "SingleActiveCellOccupancy" not in (ist.get("class") or ""):
+            continue
+        tags = cell_taggers(meta, si)
+        counts, layers = ist["cells_per_side"], ist["neighbor_layers"]
+
+        def nearby(c0, c1):
+            return all(min((a - b) % n, (b - a) % n) <= layers for a, b, n in zip(c0, c1, counts))
+        for n, leg in enumerate(tr["legs"]):
+            if not leg.get("occ") or leg["occ"][si] is None or "fresh" not in leg:
+                continue
+            occ = leg["occ"][si]
+            gen = {}
+            bad = False
+            for ti, kind in tags:
+                f = leg_entry(leg["fresh"], ti)
+                if isinstance(f, str):
+                    out.append((n, "tagger %s raised %s" % (meta["taggers"][ti]["tag"], f)))
+                    bad = True
+                    continue
+                if leg_entry(leg["activated"], ti):
+                    gen.setdefault(kind, []).append(f)
+                elif f:
+                    out.append((n, "deactivated tagger %s generates in-states" % meta["taggers"][ti]["tag"]))
+            if bad:
+                continue
+            if occ["active_id"] is None:
+                for kind, fs in gen.items():
+                    if any(fs_ for fs_ in fs):
+                        out.append((n, "%s in-states generated without a relevant active unit" % kind))
+                continue
+            a = tuple(occ["active_id"])
+            cell_of = {}
+            for d in (occ["occupants"], occ["surplus"]):
+                for k, ids in d.items():
+                    for i in ids:
+                        cell_of[tuple(i)] = [int(x) for x in k.split(",")]
+            others = Counter(tuple(i) for i in occ["relevant"] if tuple(i) != a)
+            for kind, fs in gen.items():
+                for f in fs:
+                    for ins in f:
+                        if tuple(ins[0]) != a:
+                            out.append((n, "%s in-state %r does not start with the active unit %r" % (kind, ins, a)))
+            if "TNearby" not in gen or "TSurplus" not in gen:
+                continue
+            near_t = [tuple(i) for ins in gen["TNearby"][0] for i in ins[1:]]
+            sur_t = [tuple(i) for ins in gen["TSurplus"][0] for i in ins[1:]]
+            fams = []
+            if "TBounding" in gen:
+                fams.append(("cell-bounding", [tuple(i) for ins in gen["TBounding"][0] for i in ins[1:]]))
+            if "TVeto" in gen:
+                ac = occ["active_cell"]
+                fams.append(("cell-veto", [tuple(i) for k, ids in occ["occupants"].items() for i in ids
+                                           if not nearby([int(x) for x in k.split(",")], ac)]))
+            for fname, far in fams:
+                nchecked += 1
+                union = Counter(far) + Counter(near_t) + Counter(sur_t)
+                if union != others:
+                    out.append((n, "%s + nearby + surplus targets of the recorded generations do not partition the "
+                                "other relevant units: missed %r, treated twice %r"
+                                % (fname, sorted((others - union).elements()), sorted((union - others).elements()))))
+                for t in far:
+                    if t in cell_of and nearby(cell_of[t], occ["active_cell"]):
+                        out.append((n, "%s target %r sits in a nearby cell" % (fname, t)))
+            for t in near_t:
+                if t in cell_of and not nearby(cell_of[t], occ["active_cell"]):
+                    out.append((n, "nearby target %r does not sit in a nearby cell" % (t,)))
+    tr["_c10_checked"] = nchecked
+    return out
+
+
+def real_runs(ctx, broken, payloads=None):
+    """Returns (traces, oracle failures [(trace index, leg, message)], mismatching trace indices, #cases evaluated)."""
+    pls = payloads if payloads is not None else run_payloads(ctx)
+    trs = C.run_driver_parallel(ctx, "trace_run", pls, timeout=1200)
+    for tr, pl in zip(trs, pls):
+        tr["payload"] = pl
+    fails = []
+    for ti, tr in enumerate(trs):
+        for leg, msg in run_oracle(tr):
+            fails.append((ti, leg, msg))
+    terms, idx = [], []
+    nlegs = ctx.n(120, 400)
+    for ti, tr in enumerate(trs):
+        if tr.get("error"):
+            continue
+        for si in range(len(tr["meta"]["internal_states"])):
+            t = encode_tcase(tr, nlegs, si)
+            if t is not None:
+                terms.append(t)
+                idx.append(ti)
+    neval, bad, nf, nok, err = C.eval_cases(ctx, "c10run", RUN_HEADER, terms, "check_tcase_run", "tcase", per_file=1)
+    if err:
+        broken.append("real-run case files did not evaluate: " + err[-600:])
+    return trs, fails, sorted({idx[i] for i in bad}), neval
+
+
+# ------------------------------------------------------------------------------------------------
 def chunked(xs, k):
     return [xs[i:i + k] for i in range(0, len(xs), k)]
 
@@ -655,13 +822,13 @@ def load_corpus():
     return occ, fm
 
 
-def run(ctx, occ_override=None, fm_override=None):
-    C.build_scratch(ctx)
+def run(ctx, occ_override=None, fm_override=None, run_payload_override=None):
+    C.build_scratch(ctx, exts=("heap", "mic", "ipc"))
     broken = []
     ok, out, nthm = C.check_props(ctx)
     if not ok:
         broken.append("Props/C10.v does not check: " + out[-600:])
-    replaying = occ_override is not None or fm_override is not None
+    replaying = occ_override is not None or fm_override is not None or run_payload_override is not None
     # translator + its obligations
     items, failed_files = [], []
     translator_error = None
@@ -723,7 +890,31 @@ def run(ctx, occ_override=None, fm_override=None):
     fm_mism = [fm_idx[i] for i in bad2]
 
     nstates = sum(len(o.get("steps", [])) for o in occ_out)
+    # real runs
+    import time as _time
+    t_rr = _time.time()
+    if replaying and run_payload_override is None:
+        rtrs, rfails, rmism, rneval = [], [], [], 0
+    else:
+        rtrs, rfails, rmism, rneval = real_runs(ctx, broken, run_payload_override)
+    ctx.notes.append("real runs (tracing + oracle + Coq replay) took %.1fs" % (_time.time() - t_rr))
     # verdicts
+    if rfails:
+        ti, leg, m = rfails[0]
+        pl = dict(rtrs[ti]["payload"])
+        pl["max_legs"] = leg + 2
+        C.violation(ctx, "oracle_run", {"kind": "c10-trace", "payload": pl, "leg": leg, "message": m,
+                                        "n_failing": len(rfails),
+                                        "other_failures": [(rtrs[a]["payload"]["config"], b, c) for a, b, c in rfails[1:6]]},
+                    "C10 fails on a real run: %s (leg %d of %s)" % (m, leg, pl["config"]))
+    elif rmism:
+        ti = rmism[0]
+        C.violation(ctx, "conformance_run", {"kind": "c10-trace", "payload": rtrs[ti]["payload"],
+                                             "message": "the generations recorded on a real run are not those of the "
+                                             "model taggers on the replayed occupancy (%d traces); the set-arithmetic "
+                                             "oracle found no failing leg; correspondence "
+                                             "JF.Model.OccupancyRun.check_tcase_run no longer checks" % len(rmism)},
+                    "recorded tagger generations not accepted by the Coq model", nofail=True)
     if occ_fail:
         i, m, k = occ_fail[0]
         C.violation(ctx, "oracle", {"kind": "c10-occ", "occ": [shrink_occ(cfgs[i], occ_out[i], k)], "message": m,
@@ -778,6 +969,9 @@ def run(ctx, occ_override=None, fm_override=None):
         "states_without_veto_domain": sum(len(o.get("steps", [])) for o in occ_out if not o.get("veto_domain")),
         "factor_files": dict(kinds),
         "factor_file_load_errors": dict(Counter(o["load"][1] for o in fm_out if "load" in o and o["load"][0] == "EXC")),
+        "real_runs": {"traces": len(rtrs), "legs": sum(len(t["legs"]) for t in rtrs),
+                      "legs_with_partition_checked": sum(t.get("_c10_checked", 0) for t in rtrs),
+                      "coq_cases": rneval, "configs": sorted({t["payload"]["config"] for t in rtrs})},
     }
     distinct = len({json.dumps(s.get("state"), sort_keys=True) + json.dumps(s.get("update_args"))
                     for o in occ_out for s in o.get("steps", [])}) + len({j["text"] + str(j["n"]) for j in jobs})
@@ -789,9 +983,9 @@ def run(ctx, occ_override=None, fm_override=None):
         "samples": [{"cfg": {k: v for k, v in cfgs[i].items() if k not in ("roots", "steps")},
                      "first_step": (occ_out[i].get("steps") or [None])[0]} for i in range(0, min(len(cfgs), 40), 10)],
         "input_distribution": dist,
-        "model_vs_impl_mismatches": len(occ_mism) + len(fm_mism),
-        "oracle_failures": len(occ_fail) + len(fm_fail),
-        "traces_validated_against_impl": n1 + n2,
+        "model_vs_impl_mismatches": len(occ_mism) + len(fm_mism) + len(rmism),
+        "oracle_failures": len(occ_fail) + len(fm_fail) + len(rfails),
+        "traces_validated_against_impl": n1 + n2 + rneval,
         "case_files": nf1 + nf2, "case_files_ok": nok1 + nok2,
         "factor_set_files_translated": [os.path.basename(x[1]) + " (n=%d)" % x[4] for x in items],
         "explanation": "Props/C10.v re-checked (%d theorems); %d shipped factor-set files translated and wf_file decided "
@@ -837,4 +1031,9 @@ ASSUME = [
 
 def replay(ctx, path):
     data = json.load(open(path))
-    run(ctx, occ_override=data.get("occ", []), fm_override=data.get("fmap", []))
+    if data.get("kind") == "c10-trace":
+        pl = dict(data["payload"])
+        pl["record_fresh"] = True
+        run(ctx, occ_override=[], fm_override=[], run_payload_override=[pl])
+    else:
+        run(ctx, occ_override=data.get("occ", []), fm_override=data.get("fmap", []))
